@@ -3,7 +3,7 @@ from __future__ import annotations
 
 import ast
 
-from .model import AnalysisError, FuncInfo, unparse, walk_no_nested
+from .model import AnalysisError, FuncInfo, last_attr, unparse, walk_no_nested
 from .roles import Sink, classify_sink, handle_writes
 
 PIPELINE_BASE = "codemodder.codemods.base_transformer.BaseTransformerPipeline"
@@ -124,3 +124,55 @@ def kwarg(call: ast.Call, name: str):
         if k.arg == name:
             return k.value
     return None
+
+
+# ------------------------------------------------------------------ structural anchors of the per-file scheduling
+BASE_CODEMOD = "codemodder.codemods.base_codemod.BaseCodemod"
+
+
+def apply_fn(ctx) -> FuncInfo:
+    """The BaseCodemod method that fans the files out over an executor pool (today `_apply`), found by what it does."""
+    cached = getattr(ctx, "_apply_fn", None)
+    if cached is not None:
+        return cached
+    cls = ctx.prog.cls(BASE_CODEMOD)
+    cands = []
+    for m in cls.methods.values():
+        if m.absorbed:
+            continue
+        r = ctx.resolver(m)
+        for n in walk_no_nested(m.node):
+            if isinstance(n, ast.Call) and (r.callee_qname(n) or "").endswith(("ThreadPoolExecutor", "ProcessPoolExecutor")):
+                cands.append(m)
+                break
+    if len(cands) != 1:
+        from .model import AnalysisError
+
+        raise AnalysisError(f"BaseCodemod: expected exactly one method creating an executor pool, found {[c.name for c in cands]}")
+    ctx._apply_fn = cands[0]
+    return cands[0]
+
+
+def worker_fn(ctx) -> FuncInfo:
+    """The per-file worker handed to executor.map (today `_process_file`), found through the map call's first argument."""
+    cached = getattr(ctx, "_worker_fn", None)
+    if cached is not None:
+        return cached
+    from .model import AnalysisError
+
+    ap = apply_fn(ctx)
+    r = ctx.resolver(ap)
+    found = []
+    for n in walk_no_nested(ap.node):
+        if isinstance(n, ast.Call) and last_attr(n.func) in ("map", "submit") and n.args:
+            f = r.expand(n.args[0])
+            if isinstance(f, ast.Call) and (r.callee_qname(f) or "").endswith("partial") and f.args:
+                f = f.args[0]
+            if isinstance(f, ast.Attribute) and isinstance(f.value, ast.Name) and f.value.id == "self":
+                m = ctx.prog.lookup_method(ap.cls.qname, f.attr)
+                if m is not None:
+                    found.append(m)
+    if len({m.qname for m in found}) != 1:
+        raise AnalysisError(f"{ap.qname}: the per-file worker handed to the executor could not be identified ({[m.name for m in found]})")
+    ctx._worker_fn = found[0]
+    return found[0]
